@@ -38,7 +38,9 @@ def rand_closed_path(rng, how):
         coords.extend(p)
         return H(*p)
     for _ in range(rng.randint(1, 3)):
-        parts.append('M ' + pt())
+        # a sub-path may also start directly after a ClosePath, without MoveTo: it then starts at the start point of the sub-path just closed
+        if not (parts and parts[-1] == 'Z' and rng.random() < 0.3):
+            parts.append('M ' + pt())
         for _ in range(rng.randint(1, 6)):
             k = rng.choice('LLQC')
             parts.append(k + ' ' + ' '.join(pt() for _ in range({'L': 1, 'Q': 2, 'C': 3}[k])))
